@@ -61,67 +61,70 @@ func (c *Ctx) rulePredicates(r1, r2 string) {
 	if R.WaitFn == nil || R.Release == nil {
 		return
 	}
-	// the predicate: the function literal called as the condition of the loop that contains Cond.Wait
+	// the predicate: a boolean function (a local function literal or a library function) that reads the worker
+	// status and whose result guards Cond.Wait
 	info := R.WaitFn.Info()
 	var pred *Func
-	loopOK := false
+	litOf := map[types.Object]*Func{}
 	ast.Inspect(R.WaitFn.Body, func(n ast.Node) bool {
-		fs, ok := n.(*ast.ForStmt)
-		if !ok || fs.Cond == nil {
-			return true
-		}
-		hasWait := false
-		ast.Inspect(fs.Body, func(m ast.Node) bool {
-			if call, ok := m.(*ast.CallExpr); ok && resolveCallee(info, call).Key == kCondWait {
-				hasWait = true
-			}
-			return true
-		})
-		if !hasWait {
-			return true
-		}
-		loopOK = true
-		if call, ok := ast.Unparen(fs.Cond).(*ast.CallExpr); ok {
-			switch fn := ast.Unparen(call.Fun).(type) {
-			case *ast.Ident:
-				if v, ok := info.ObjectOf(fn).(*types.Var); ok {
-					// the literal assigned to that variable
-					ast.Inspect(R.WaitFn.Body, func(m ast.Node) bool {
-						if as, ok := m.(*ast.AssignStmt); ok && len(as.Lhs) == 1 && len(as.Rhs) == 1 {
-							if id, ok := as.Lhs[0].(*ast.Ident); ok && info.ObjectOf(id) == v {
-								if lit, ok := ast.Unparen(as.Rhs[0]).(*ast.FuncLit); ok {
-									pred = c.P.byLit[lit]
-								}
-							}
-						}
-						return true
-					})
-				} else if f, ok := info.ObjectOf(fn).(*types.Func); ok {
-					pred = c.P.byObj[funcKey(f)]
-				}
-			case *ast.FuncLit:
-				pred = c.P.byLit[fn]
-			case *ast.SelectorExpr:
-				if sel, ok := info.Selections[fn]; ok {
-					if f, ok := sel.Obj().(*types.Func); ok {
-						pred = c.P.byObj[funcKey(f)]
-					}
+		if as, ok := n.(*ast.AssignStmt); ok && len(as.Lhs) == 1 && len(as.Rhs) == 1 {
+			if lit, ok := ast.Unparen(as.Rhs[0]).(*ast.FuncLit); ok {
+				if o := rootIdent(info, as.Lhs[0]); o != nil {
+					litOf[o] = c.P.byLit[lit]
 				}
 			}
 		}
 		return true
 	})
-	// every Cond.Wait is inside such a loop
-	waits := 0
-	for _, cs := range c.P.calls(R.WaitFn) {
-		if cs.Callee.Key == kCondWait {
-			waits++
+	isPred := func(f *Func) bool {
+		if f == nil || f.Type.Results == nil || len(f.Type.Results.List) != 1 {
+			return false
+		}
+		if b, ok := f.Info().TypeOf(f.Type.Results.List[0].Type).Underlying().(*types.Basic); !ok || b.Info()&types.IsBoolean == 0 {
+			return false
+		}
+		return c.emits(f)["wstatus?"]
+	}
+	calleeFunc := func(fr *Frame, ce *Callee) *Func {
+		if ce.Var != nil && ce.Field == "" {
+			return litOf[ce.Var]
+		}
+		if ce.Lit != nil {
+			return c.P.byLit[ce.Lit]
+		}
+		if f := c.P.byObj[ce.Key]; f != nil && f.Lib {
+			return f
+		}
+		return nil
+	}
+	sr := &seqRule{c: c, rule: r1}
+	sr.classify = func(fr *Frame, call *ast.CallExpr, ce *Callee, args []Value) *callEvent {
+		if ce.Key == kCondWait {
+			return &callEvent{Name: "condwait", Atomic: true}
+		}
+		if fr.Caller == nil {
+			if f := calleeFunc(fr, ce); isPred(f) {
+				pred = f
+				return &callEvent{Name: "pred", Atomic: true, Results: tok("pred")}
+			}
+		}
+		return nil
+	}
+	sr.condSym = func(fr *Frame, token, rel string) string { return token + "=" + rel }
+	loopOK, waits := true, 0
+	for _, sg := range sr.segments(R.WaitFn) {
+		if !sg.has("condwait") {
+			continue
+		}
+		waits++
+		if sg.Kind != "iter" || !sg.before("pred=true", "condwait") || sg.How != "next" {
+			loopOK = false
 		}
 	}
-	c.Rep.check(loopOK && waits == 1, r1, R.WaitFn.Short(), "Cond.Wait not inside a loop that re-evaluates the predicate", c.P.pos(R.WaitFn.Body), "for predicate() { Wait() }",
-		"Cond.Wait must be called inside a loop whose condition re-evaluates the wait predicate (a single `if` returns on any broadcast, also a stale one)")
+	c.Rep.check(loopOK && waits >= 1, r1, R.WaitFn.Short(), "Cond.Wait not inside a loop that re-evaluates the predicate", c.P.pos(R.WaitFn.Body), "every Cond.Wait is in a loop iteration that evaluated the predicate true, and the loop goes round again",
+		"Cond.Wait must be called inside a loop that re-evaluates the wait predicate before every Wait and after every wake-up (a single `if` returns on any broadcast, also a stale one)")
 	if pred == nil {
-		c.Rep.undecided(r1, R.WaitFn.Short(), "wait predicate", c.P.pos(R.WaitFn.Body), "cannot identify the wait predicate (the condition of the loop around Cond.Wait must be a call of a function literal or function)")
+		c.Rep.undecided(r1, R.WaitFn.Short(), "wait predicate", c.P.pos(R.WaitFn.Body), "cannot identify the wait predicate (a boolean function reading the worker status whose result guards Cond.Wait)")
 		return
 	}
 	ref := func(status string, pending, inflight int64) bool {
